@@ -827,6 +827,15 @@ class C17Monitor(Monitor):
     def before_step(self, f):
         self.before = {n: (f.dev[n]._part, f.dev[n]._output) for n in self.batchers}
 
+    def quiescent(self, f):
+        # (c, converse) a batcher with nothing left to unpack takes input again: when time advances its input slot may
+        # hold a part, a batch that still has parts, or nothing - not an exhausted batch that would block it for good
+        for n in self.batchers:
+            p = f.dev[n]._part
+            if isinstance(p, f.lib.Batch) and not leaves_of(p, f.lib):
+                f.fail('C17.c', f'time advances from {f.env.now} while batcher {n} keeps the empty batch {p.name} in its input '
+                       f'slot: it has nothing left to unpack but cannot accept input', 'empty_batch_kept')
+
     def after_step(self, f, e):
         lib = f.lib
         step_accepts = {}
@@ -1057,6 +1066,7 @@ class C08Monitor(Monitor):
         for n in f.holders:
             for slot, item in f.slots(n):
                 self.check_item(f, item)
+                self.check_open_paths(f, n, item)
         for lf, a, b in f.moves:
             if lf is not None:
                 self.check_holders(f, lf)
@@ -1079,6 +1089,24 @@ class C08Monitor(Monitor):
             self.wiring_seen = {n: list(u) for n, u in f.wiring.items()}
             self.g.rewire(self.wiring_seen)
             f.bump(f.stats['reach'], 'routes_checked_after_rewire')
+
+    def check_open_paths(self, f, n, item):
+        """The group paths an item at rest in a device still has to leave through (the library keeps them on the item) are
+        exactly the ones its history says it entered and has not left: nothing left over from a refused entry, nothing
+        missing.  (Skipped if the item does not carry such a list.)"""
+        real = getattr(item, '_group_pathing', None)
+        if not isinstance(real, list):
+            return
+        lv = leaves_of(item, f.lib)
+        st = self.state.get(id(lv[0])) if lv else None
+        if st is None or len(lv[0].routing_history) != st[0]:
+            return
+        names = [f.name_of.get(id(x)) for x in real]
+        if None in names:
+            return
+        if names != list(st[1]):
+            f.fail('C08.a', f'{item.name} at rest in {n} is marked as having to leave through group paths {names}; its history '
+                   f'says it has entered and not left {list(st[1])}', 'open_paths')
 
     def check_holders(self, f, lf):
         """(b) holders observed by the census == history filtered to holding devices."""
